@@ -26,6 +26,8 @@ ASSUME Out("mergedeep", MergeDeep)
 ASSUME Out("yamldocs", YamlDocs)
 ASSUME Out("deeparr", DeepArr)
 ASSUME Out("strdocs", StrDocs)
+ASSUME Out("keyednull", KeyedNull)
+ASSUME Out("mergenull", MergeNull)
 ASSUME Out("objptr", ObjPtr)
 ASSUME Out("ptrdeep", PtrDeep)
 =============================================================================
